@@ -44,6 +44,26 @@ CLAIMED = {
               "in-process (41k evaluations per quick run, Spec judged on the implementation's own dumps)."),
         note=TB + "Source switches (start id, NOACK, reversed range, explicit-id history) are detected by regex in lib/c16.py; idle times are Booleans; SETID histories are outside exactly_once.",
         ref="DESIGN.md section 5 C16"),
+    "C04": dict(
+        text=("Proof: the skip-list invariant (level 0 strictly sorted by (score, member), every level a sublist of the one below, key index = level 0, length) for every "
+              "operation sequence and every tower height, refinement of insert/remove to the sorted-list Spec, engine-level refinement for ZADD/ZINCRBY/ZREM/ZPOP histories, "
+              "query-consistency laws (rank, reverse rank, score ranges, pops) and the rank-window arithmetic for all integers, NaN refusal and all-or-nothing ZADD - Lean "
+              "theorems; the real SkipList is compared level by level after every op (verif_dump_levels), the engine functions and the TCP handlers reply by reply (18k evaluations)."),
+        note=TB + "Scores are order keys of non-NaN f64 (float addition for ZINCRBY is computed by the harness); the pointer walk is modelled as a list-position walk justified by the invariant; memory safety of the raw-pointer code is out of scope.",
+        ref="DESIGN.md section 5 C04, Appendix D2"),
+    "C14": dict(
+        text=("Proof: the three subscription maps are mutual inverses after every history, acknowledgement counts, publish = one delivery per matching subscription (reply = their "
+              "number), nothing after unsubscribe/disconnect, per-subscriber order, and full correctness of the star-backtracking glob matcher against a declarative semantics - "
+              "Lean theorems; PubSubManager compared in-process after every op, the matcher on 480k pairs, and the real server with 4 client sockets over TCP."),
+        note=TB + "Mutex behaviour of PubSubManager is not modelled (single command thread); disconnect detection timing is the server's; the TCP layer sends one command at a time.",
+        ref="DESIGN.md section 5 C14"),
+    "C19": dict(
+        text=("Proof: SCAN soundness, batch bound, cursor progress and an explicit termination bound, completeness under the exact decidable condition the rank cursor supports "
+              "(no element ranked below the cursor leaves the view; additions anywhere) with witnesses that the full statement fails for a rank cursor and holds for a key cursor, "
+              "HSCAN/SSCAN/ZSCAN as the same walk, and the MATCH matcher refined to glob semantics - Lean theorems; every call of full iterations with interleaved adds/deletes is "
+              "compared with the model in-process (59k evaluations) and misses are classified by the rank of the deleted element."),
+        note=TB + "The rank-cursor design gap (a deletion below the cursor) is a recorded known finding; lazy expiry inside scan is C02's.",
+        ref="DESIGN.md section 5 C19"),
 }
 
 NOT_YET = {}
